@@ -4,50 +4,33 @@ From GD Require Import C09.Names C09.NamesProofs C09.Scope C09.Alias C09.AliasPr
 Import ListNotations.
 Open Scope N_scope.
 
-(* P with the two decision points set as the Standards require (proposed
-   fixes C09-1 and C09-2); everything else as read from the source *)
-Definition fixflags (P : params) : params := {|
-  prm_prot_inherit := true; prm_off_inherit := prm_off_inherit P; prm_enc_inherit := prm_enc_inherit P;
-  prm_recurse_max := prm_recurse_max P; prm_std := prm_std P;
-  g_alias := g_alias P; g_encoding := g_encoding P; g_endian := g_endian P; g_frameoffset := g_frameoffset P;
-  g_hidden := g_hidden P; g_include := g_include P; g_namespace := g_namespace P; g_protect := g_protect P;
-  g_reference := g_reference P; g_version := g_version P; g_slash := g_slash P; g_barth := g_barth P;
-  g_nsname := g_nsname P; g_nsaffix := g_nsaffix P; g_fo_base0 := g_fo_base0 P;
-  prm_leak_parent := prm_leak_parent P; prm_leak_child := prm_leak_child P;
-  prm_alias_bounded := prm_alias_bounded P; prm_ns_pop := true |}.
-
 Definition agrees (P : params) (t : list line) : Prop :=
   match interp_spec_pre t with
   | Unspec => True
   | r => interp_impl_pre P t = r
   end.
 
-(* the full statement for the code as it is *)
-Definition scope_agrees_statement : Prop := forall t, tree_plain t = true -> agrees code_params t.
-
 Lemma scope_agrees_any : forall P t, params_ok P -> tree_plain t = true -> agrees P t.
 Proof. intros. unfold agrees. apply pre_agrees; auto. Qed.
 
-(* every decision point other than the two flagged ones is as documented *)
-Lemma code_params_ok : params_ok (fixflags code_params).
+(* every decision point read from /repo/src is as documented *)
+Lemma code_params_ok : params_ok code_params.
 Proof. unfold params_ok. vm_compute. repeat split. Qed.
 
-Lemma scope_agrees_fixed : forall t, tree_plain t = true -> agrees (fixflags code_params) t.
+(* scope_agrees for the code as it is *)
+Lemma scope_agrees_code : forall t, tree_plain t = true -> agrees code_params t.
 Proof. intros. apply scope_agrees_any; auto. apply code_params_ok. Qed.
 
-Lemma scope_agrees_when_fixed :
-  prm_prot_inherit code_params = true -> prm_ns_pop code_params = true -> scope_agrees_statement.
-Proof.
-  intros H1 H2 t Ht. replace code_params with (fixflags code_params). apply scope_agrees_fixed; auto.
-  unfold fixflags. rewrite <- H1 at 1. rewrite <- H2 at 1. destruct code_params; reflexivity.
-Qed.
+Lemma alias_bounded_code : prm_alias_bounded code_params = true.
+Proof. reflexivity. Qed.
 
-Lemma scope_agrees_partial : forall t, tree_plain t = true ->
-  interp_impl_pre code_params t = interp_impl_pre (fixflags code_params) t -> agrees code_params t.
-Proof. intros t Ht E. unfold agrees. rewrite E. apply scope_agrees_fixed; auto. Qed.
+Lemma alias_resolution_code : forall ents B t0,
+  find_exact (e_name B) ents = Some B -> e_kind B = EAlias t0 ->
+  resolve_impl (prm_alias_bounded code_params) ents (e_name B) t0 = ADone (alias_spec ents t0).
+Proof. rewrite alias_bounded_code. exact resolve_impl_is_alias_spec. Qed.
 
-(* ---- refutations (generic in the parameters, so that they stay provable
-   whichever way the two decision points are set in /repo) -------------- *)
+(* ---- history: the pinned code (before the fix: commits) had two decision
+   points set otherwise; with those settings the statement fails --------- *)
 Definition w_prot : list line :=
   [LProtect 3; LInclude {| in_dir := []; in_px := []; in_sx := [] |} [LField [97] (KRaw false)]].
 Definition w_ns : list line :=
@@ -74,21 +57,6 @@ Lemma nsleak_refuted : forall prot,
   interp_impl_pre (set_flags spec_params prot false) w_ns <> interp_spec_pre w_ns.
 Proof. intros. destruct prot; vm_compute; repeat split; discriminate. Qed.
 
-Lemma set_flags_id : forall P, set_flags P (prm_prot_inherit P) (prm_ns_pop P) = P.
-Proof. destruct P; reflexivity. Qed.
-
-(* the code as it is violates the full statement as soon as one of the two
-   decision points is not as the Standards require *)
-Lemma scope_agrees_refuted :
-  prm_prot_inherit code_params = false \/ prm_ns_pop code_params = false -> ~ scope_agrees_statement.
-Proof.
-  intros [H|H] HS.
-  - specialize (HS w_prot eq_refl). vm_compute in H. vm_compute in HS.
-    first [discriminate H | discriminate HS].
-  - specialize (HS w_ns eq_refl). vm_compute in H. vm_compute in HS.
-    first [discriminate H | discriminate HS].
-Qed.
-
 (* ---- affix nesting, RAW file names ------------------------------------ *)
 Lemma affix_nesting_impl : forall P p f pxin sxin ns px sx nb,
   set_affixes P p f pxin sxin = Ok (ns, px, sx, nb) ->
@@ -113,7 +81,7 @@ Proof. intros. split. apply chain_px_app. apply chain_sx_app. Qed.
 
 Lemma raw_file_has_no_affix : forall nf cf std ped me barth ents name lg ents' r,
   add_field nf cf std ped me barth ents name (KRaw lg) = Ok (ents', r) ->
-  exists field, ents' = ents ++ [{| e_name := field; e_frag := me; e_kind := ERaw name; e_hidden := false |}].
+  exists field, ents' = ents ++ [{| e_name := field; e_frag := me; e_kind := ERaw name lg; e_hidden := false |}].
 Proof.
   unfold add_field. intros.
   apply bind_ok in H. destruct H as ([Pp nm] & _ & H).
